@@ -103,8 +103,8 @@ def same_crs_pair(rng: random.Random, kind: Optional[str] = None, ttol: float = 
         paste, k_scale = True, 1
     else:
         raise ValueError(kind)
-    dst = GeoBox((ny, nx), src.affine * P, src.crs)
-    return src, dst, kind, {"paste": paste, "int_scale": k_scale, "P": tuple(P)[:6]}
+    dst = gen.warm_view(GeoBox((ny, nx), src.affine * P, src.crs))
+    return gen.warm_view(src), dst, kind, {"paste": paste, "int_scale": k_scale, "P": tuple(P)[:6]}
 
 
 def cross_crs_pair(rng: random.Random, max_n: int = 40):
@@ -159,7 +159,7 @@ def _box_at(rng, crs, lon, lat, size_deg, n, rot):
     g = GeoBox((n, nx), Affine(rx, 0, x0, 0, -ry, y1), crs)
     if rot:
         g = g.rotate(rot)
-    return g
+    return gen.warm_view(g)
 
 
 def M3(A) -> np.ndarray:
